@@ -167,6 +167,45 @@ def array_classes():
 
 
 @functools.lru_cache(maxsize=None)
+@functools.lru_cache(maxsize=None)
+def default_sites():
+    """(class, field, kind) for every attrs field whose default is an object: 1 = attr.Factory (fresh per instance),
+    2 = rebuilt by the field converter, 3 = ONE mutable object shared by all instances, 4 = a validator object passed as
+    the default by mistake, 5 = immutable object (type, enum member, tuple, ...)."""
+    import collections
+    import enum
+    import attr
+    res = []
+    seen = set()
+    mutable = (list, bytearray, dict, set, collections.OrderedDict)
+    for m in all_modules():
+        for n, c in sorted(vars(m).items()):
+            if not (isinstance(c, type) and attr.has(c) and c.__module__ == m.__name__) or c in seen:
+                continue
+            seen.add(c)
+            for f in attr.fields(c):
+                d = f.default
+                if d is attr.NOTHING or d is None or isinstance(d, (int, str, bytes, bool, float, tuple, frozenset, enum.Enum)):
+                    continue
+                if isinstance(d, attr.Factory):
+                    kind = 1
+                elif isinstance(d, type):
+                    kind = 5
+                elif type(d).__module__.startswith('attr'):
+                    kind = 4
+                else:
+                    rebuilt = False
+                    if f.converter is not None:
+                        try:
+                            rebuilt = f.converter(d) is not d
+                        except Exception:  # pylint: disable=broad-except
+                            rebuilt = False
+                    is_mutable = isinstance(d, mutable) or hasattr(d, '__dict__')
+                    kind = 2 if rebuilt else (3 if is_mutable else 5)
+                res.append((c.__module__ + '.' + c.__name__, f.name, kind))
+    return res
+
+
 def local_int_enums():
     import enum
     res = []
@@ -254,6 +293,13 @@ def emit_tables():
     lines.append('Definition array_params : list (string * (string * (Z * Z * Z * Z))) := [')
     lines.append(';\n'.join('  (%s, (%s, (%d, %d, %d, %d)))' % (coq_string(n), coq_string(d['kind']), d['min'], d['max'], d['num'], d['item_size'])
                             for n, d in arrs.items()))
+    lines.append('].')
+    sites = default_sites()
+    out['default_sites'] = sites
+    lines.append('(* attrs fields whose default is an object: (class, field, kind) with kind 1 = attr.Factory, 2 = rebuilt by the converter,')
+    lines.append('   3 = one mutable object shared by all instances, 4 = a validator object used as default, 5 = immutable object *)')
+    lines.append('Definition default_sites : list (string * string * Z) := [')
+    lines.append(';\n'.join('  (%s, %s, %d)' % (coq_string(c), coq_string(f), k) for c, f, k in sites))
     lines.append('].')
     lines.append('')
     lines.append('Definition flag_tables : list (string * list Z) := [')
